@@ -28,15 +28,24 @@ Proof.
   destruct (str_eqb k' k); [discriminate|exact IH].
 Qed.
 
+Lemma oget_in_table {V} (l : list (str * V)) n v : oget str_eqb l n = Some v -> In (n, v) l.
+Proof.
+  induction l as [|[k x] r IH]; cbn [oget]; [discriminate|].
+  destruct (str_eqb k n) eqn:E.
+  - intros H. injection H as H. subst x. apply str_eqb_eq in E. subst k. left. reflexivity.
+  - intros H. right. apply IH, H.
+Qed.
+
 Lemma ctx_h2f_root cx cells rt f k :
   oget str_eqb cells (cx_sw_column cx) = Some rt ->
+  sw_key cx rt = rt ->
   oget str_eqb (cx_sw_table cx) rt = Some f ->
   ctx_h2f (Some cx) cells k = Ok (remap_get (root_h2f cx rt) k).
 Proof.
-  intros Hc Ht. unfold ctx_h2f, remap_get, root_h2f. rewrite Ht.
+  intros Hc Hk Ht. unfold ctx_h2f, remap_get, root_h2f. rewrite Ht.
   destruct (oget str_eqb (cx_basic cx) k) as [g|] eqn:Eb.
   - rewrite (oget_app_some _ _ _ _ Eb). reflexivity.
-  - rewrite (oget_app_none _ _ _ Eb). cbn [oget]. rewrite Hc, Ht.
+  - rewrite (oget_app_none _ _ _ Eb). cbn [oget]. rewrite Hc, Hk, Ht.
     destruct (str_eqb k (cx_sw_header cx)) eqn:E.
     + apply str_eqb_eq in E. subst k. rewrite str_eqb_refl. reflexivity.
     + replace (str_eqb (cx_sw_header cx) k) with false; [reflexivity|].
@@ -184,7 +193,10 @@ Section Ctx.
     && negb (mem_char c_dot (cx_sw_header cx))
     && match field_lookup (fun tf d => (tf, d)) fields (cx_sw_column cx) with
        | Some (TStr, None) => true | _ => false end
-    && str_eqb (remap_get f2h (cx_sw_column cx)) (cx_sw_column cx).
+    && str_eqb (remap_get f2h (cx_sw_column cx)) (cx_sw_column cx)
+    (* the row types of the table carry no surrounding whitespace: a tree that strips the row-type
+       cell before the lookup and one that does not re-key a written row alike *)
+    && forallb (fun kv => str_eqb (strip (fst kv)) (fst kv)) (cx_sw_table cx).
 
   (* the domain: the row type is known, and the instance is in the domain of the context-free
      statement for the model whose root header table is the context remap of that row type *)
@@ -240,7 +252,11 @@ Section Ctx.
     set (tgt := matches_headers targets) in *. set (cs := concat gs) in *.
     pose proof (root_col_heads tgt h2f' f2h [] fields fs gs Hdf Hgs) as Hheads. fold cs in Hheads.
     pose proof Hwf as Hwf'. unfold ctx_wf in Hwf'. repeat (apply andb_true_iff in Hwf'; destruct Hwf' as [Hwf' ?]).
+    match goal with X : forallb (fun kv => str_eqb (strip (fst kv)) (fst kv)) (cx_sw_table cx) = true |- _ => rename X into Wkeys end.
     rename Hwf' into Wnames.
+    assert (Hkey : sw_key cx rt = rt).
+    { unfold sw_key. destruct (cx_sw_strip cx); [|reflexivity]. rewrite forallb_forall in Wkeys.
+      specialize (Wkeys (rt, fmain) (oget_in_table _ _ _ Etab)). cbn [fst] in Wkeys. apply str_eqb_eq in Wkeys. exact Wkeys. }
     match goal with X : str_eqb (remap_get f2h (cx_sw_column cx)) (cx_sw_column cx) = true |- _ => apply str_eqb_eq in X; rename X into Wcol end.
     match goal with X : match field_lookup _ fields (cx_sw_column cx) with _ => _ end = true |- _ => rename X into Wreq end.
     (* the row-type cell *)
@@ -261,7 +277,7 @@ Section Ctx.
     { unfold rekey. rewrite (rekey_gen (Some cx) (cells_of cs) (remap_get h2f') (cells_of cs) []).
       - cbn [app]. unfold cells_of. rewrite map_map. cbn [fst snd]. f_equal. apply map_ext_in. intros ps Hps.
         unfold h2f'. rewrite rekeyed_header; [reflexivity|]. rewrite Forall_forall in Hheads. apply Hheads, Hps.
-      - intros kv _. apply (ctx_h2f_root cx (cells_of cs) rt fmain (fst kv) Htype Etab).
+      - intros kv _. apply (ctx_h2f_root cx (cells_of cs) rt fmain (fst kv) Htype Hkey Etab).
       - cbn [map app]. unfold cells_of. rewrite !map_map. cbn [fst].
         rewrite (map_ext_in _ (fun ps => header_of (rekey_path rt (fst ps)))).
         2:{ intros ps Hps. unfold h2f'. apply rekeyed_header. rewrite Forall_forall in Hheads. apply Hheads, Hps. }
